@@ -228,7 +228,10 @@ fn scale_date_literal(
     const MILLIS_PER_DAY: i128 = MILLISECONDS_IN_DAY as i128;
     match (from_type, target_type) {
         (DataType::Date32, DataType::Date64) => value.checked_mul(MILLIS_PER_DAY),
-        (DataType::Date64, DataType::Date32) => {
+        // arrow casts Int32 -> Date64 through Date32 (the integer counts days), so a
+        // Date64 literal corresponds to the Int32 value `ms / ms-per-day` (and only if it
+        // is a whole day)
+        (DataType::Date64, DataType::Date32 | DataType::Int32) => {
             (value % MILLIS_PER_DAY == 0).then_some(value / MILLIS_PER_DAY)
         }
         _ => value.checked_mul(mul),
